@@ -4,6 +4,7 @@ import ConduitModel.Generated.RegistryInstall
 import ConduitModel.Generated.RegistryExtract
 import ConduitModel.Generated.Atomicfile
 import ConduitModel.Props.C19
+import ConduitModel.Props.C19Flock
 
 /-!
 Facts obligations for C19: what the hand models assume about the source is what the source says
@@ -153,5 +154,20 @@ the temp file is synced and closed between the write and the rename. -/
 theorem C19_fact_sync_before_rename :
     (Atomicfile.writeFileOps.filter fun t => t.2.2.1 == "" && !t.2.2.2).map (·.1) =
       ["CreateTemp", "Write", "Sync", "Close", "Chmod", "Rename"] := by decide
+
+/-- hypothesis of `C19_flock_mutual_exclusion` (Props/C19Flock.lean): no code of pkg/registry unlinks or
+renames a lock file, or even reads a lock's path — the only operations on a lock are acquire
+(`flock.New(path).TryLockContext`) and `Unlock`. Regenerated from every non-test file of the package. -/
+theorem C19_fact_lock_files_never_unlinked : Conduit.Generated.RegistryIndex.lockFileUnlinks = [] := by decide
+
+/-- … so every history of opens / locks / unlocks the code can produce on one lock path keeps at most one
+process inside the guarded section (the model theorem, restated for event lists built from the code's
+three operations). -/
+theorem C19_locks_serialise (evs : List Conduit.FlockFile.Ev) (s' : Conduit.FlockFile.St)
+    (hcode : ∀ e ∈ evs, (∃ p, e = .openP p) ∨ (∃ p, e = .lock p) ∨ (∃ p, e = .unlock p))
+    (h : Conduit.FlockFile.run {} evs = some s') : s'.inside ≤ 1 := by
+  apply Conduit.FlockFile.C19_flock_mutual_exclusion_from_start evs s' _ h
+  intro hm
+  rcases hcode _ hm with ⟨p, hp⟩ | ⟨p, hp⟩ | ⟨p, hp⟩ <;> cases hp
 
 end Conduit.Facts.C19
